@@ -265,6 +265,9 @@ func (e *leakEngine) exec(c *leakCase, tape *Tape) *RunOut {
 	if v.StepLimit {
 		trouble("leak engine: step limit")
 	}
+	if v.TaskLimit {
+		add("C14.tasks", "watcher/unbounded", "more than %d goroutines started by godi were alive at once during %d create/use/close cycles: the number of goroutines is not bounded", 4096, c.N)
+	}
 	// quiescent checks with provider (and parent scope) still alive
 	if prov != nil && len(r.vs) == 0 {
 		if c.ParentKind == 1 {
